@@ -240,3 +240,7 @@ def units(tier):
 
 def selftest():
     return stats.selftest()
+
+
+# dimensions added after the fourth and fifth round of seeded changes (DESIGN.md 8.3, 8.4); part of the rule reported in the evidence
+RULE += ' Added with the fourth and fifth round of seeded changes: the same arrays fed to a second distinguisher (its result is the one compared); arrays returned by earlier computes kept and compared at the end; sets of 131 073 / 150 001 traces.'
